@@ -25,7 +25,7 @@ CATALOGUE = {
     'no-frame': MUST_RAISE, 'frame-no-channels': MUST_RAISE, 'window': MUST_RAISE, 'zero-rows': MUST_RAISE,
     'empty-list': EITHER, 'ics': MUST_RAISE, 'ocs': MUST_RAISE, 'sul-seq': MUST_RAISE, 'sul-id-long': MUST_RAISE,
     'hdr-id-long': MUST_RAISE, 'dtime-range': MUST_RAISE, 'vrl-invalid': MUST_RAISE, 'hdr-seq': MUST_RAISE,
-    'hdr-ident': MUST_RAISE, 'uvari-nonint': MUST_RAISE,
+    'hdr-ident': MUST_RAISE, 'uvari-nonint': MUST_RAISE, 'sul-field-set-later': MUST_RAISE,
 }
 
 
@@ -63,6 +63,10 @@ def invalidation(draw):
         inv['v'] = draw(st.sampled_from([-1, -12, 10000, 123456]))
     elif k == 'dtime-range':
         inv['year'] = draw(st.sampled_from([1850, 1899, 2156, 2300]))
+    elif k == 'sul-field-set-later':
+        inv['field'], inv['v'] = draw(st.sampled_from([('set_identifier', 'X' * 61), ('set_identifier', 'Y' * 200),
+                                                      ('sequence_number', 10000), ('sequence_number', 123456),
+                                                      ('set_identifier', 'naïve')]))
     elif k == 'vrl-invalid':
         inv['v'] = draw(st.sampled_from([19, 18, 0, -20, 21, 8191, 16385, 16386, 70000]))
     elif k == 'hdr-seq':
@@ -224,6 +228,8 @@ def apply(spec, inv):
         ops[origins[0]]['attrs']['creation_time'] = {'v': {'$dt': f"{inv['year']}-06-15T12:00:00", 'tz': 0}, 'r': 'kw'}
     elif k == 'vrl-invalid':
         spec['sul']['vrl'] = inv['v']
+    elif k == 'sul-field-set-later':
+        spec.setdefault('post', []).append(['sul', inv['field'], inv['v']])
     elif k == 'hdr-seq':
         lf.setdefault('hdr', {})['seq'] = inv['v']
     elif k == 'hdr-ident':
@@ -418,12 +424,16 @@ class C12(Property):
             if op['t'] == 'nfdata' and op['payload'].get('k') == 'text':
                 texts[j] = op['payload']['text']
                 op['payload'] = {'k': 'str', 'hex': ''}
-        if not texts:
+        post = spec.pop('post', [])
+        if not texts and not post:
             return B.build_and_write(spec, path, ctx.scratch)
         try:
             b = B.build(spec, ctx.scratch)
             for j, t in texts.items():
                 b.items[(0, j)].data = t
+            for what, field, value in post:
+                # public attributes of the storage unit label, changed after the label was constructed
+                setattr(b.df.storage_unit_label, field, value)
             kw = B.write_kwargs(spec)
             b.df.write(path, **kw)
         except Exception as exc:
